@@ -57,7 +57,8 @@ def files_of(ps, rng, missing=False):
             par = "aMissing" if (missing and rng.chance(1, 6)) else "-"
         else:
             par = recase(NAMES[p], rng)
-        out.append("%s:%s:%s" % (NAMES[i], par, "+".join(mem) or "-"))
+        # one file in three also carries USE sites of every method name of the workspace (flag h; the model ignores it)
+        out.append("%s:%s:%s%s" % (NAMES[i], par, "+".join(mem) or "-", ":-:h" if rng.chance(1, 3) else ""))
     return ",".join(out)
 
 
@@ -111,6 +112,13 @@ def gen_cases(ctx):
         fs = files_of(random_forest(n, ctx.rng), ctx.rng)
         cases.append("tree %s %d 7 free -" % (fs, 1 + ctx.rng.below(2)))
         ctx.count("free-7-workers n=%d" % n)
+    # wide stars under free-running workers: many chunks link their class to ONE parent at the same time
+    # (lost updates on the parent's child list and duplicate parents only show under real contention)
+    for k in range(12 if quick else 300):
+        n = 40 + ctx.rng.below(120)
+        kids = ",".join("aKid%d:%s:-" % (i, recase("aStar", ctx.rng)) for i in range(n))
+        cases.append("tree aStar:-:-,%s 1 7 free -" % kids)
+        ctx.count("free-7-workers star")
     return cases, ncorpus, nexh
 
 
@@ -159,6 +167,38 @@ def classify(impl, spec):
     return kinds
 
 
+def use_site_failures(case, ans, us):
+    files = {}
+    for f in case.split()[1].split(","):
+        p = f.split(":")
+        files[p[0].upper()] = ((p[1].upper() if p[1] != "-" else None), [m.upper() for m in (p[2].split("+") if len(p) > 2 and p[2] != "-" else [])])
+    decl = dict(w.split("=", 1) for w in ans.split(" ") if "=" in w)
+    got = dict(w.split("=", 1) for w in us if "=" in w)
+    out = []
+    for k, v in got.items():
+        if not k.startswith("useat:"):
+            continue
+        cls, m = k[6:].split(".", 1)
+        # nearest class up the chain (the class itself first) that declares the method
+        owner, x, seen = None, cls, set()
+        while x is not None and x in files and x not in seen:
+            seen.add(x)
+            if m in files[x][1]:
+                owner = x
+                break
+            x = files[x][0]
+        want = owner or "-"
+        if v != want:
+            out.append(("use-site-item-wrong", "prepareTypeHierarchy on a use `self.%s` in %s names %s, the nearest declaration is in %s" % (m, cls, v, want)))
+            continue
+        if owner:
+            for pre, dpre in (("useup:", "up:"), ("usedn:", "dn:")):
+                a, b = got.get(pre + cls + "." + m), decl.get(dpre + owner + "." + m)
+                if b is not None and a != b:
+                    out.append(("use-site-hierarchy-differs", "%s of `self.%s` used in %s = %s, of its declaration in %s = %s" % (dpre, m, cls, a, owner, b)))
+    return out
+
+
 WHAT = {
     "lost-child": "a class that declares the parent is missing from the parent's subtypes",
     "wrong-subtype": "subtypes differ from the classes that declare the class as parent",
@@ -192,12 +232,15 @@ def run(ctx):
     cases, ncorpus, nexh = gen_cases(ctx)
     ctx.log("%d cases (%d corpus, %d exhaustive forced, rest random forced / free)" % (len(cases), ncorpus, nexh))
     impl = ctx.run_harness("tree", cases)
-    metas, answers = [], []
+    metas, answers, uses = [], [], []
     for h in impl:
         m, a = split_out(h)
         metas.append(m)
-        answers.append(a)
-    model = ctx.run_driver([driver_line("tree", c, m.get("order")) for c, m in zip(cases, metas)])
+        answers.append(" ".join(w for w in a.split(" ") if not w.startswith("use")))
+        uses.append([w for w in a.split(" ") if w.startswith("use")])
+    # the step-by-step model is cubic in the number of files: for the wide stars (free-running, no forced schedule to follow) the
+    # model's answer is the specification's (Props/C13: every schedule gives the declared relation)
+    model = ctx.run_driver([driver_line("treespec" if " aStar:" in c else "tree", c, m.get("order")) for c, m in zip(cases, metas)])
     spec = ctx.run_driver([driver_line("treespec", c, m.get("order")) for c, m in zip(cases, metas)])
     atomic_src = "gocAtomic=True" in ctx.extract_info.get("E10TreeGoc", "")
     # tie: the lock the harness finds held at the yield point must be what the translator read
@@ -222,6 +265,14 @@ def run(ctx):
                 ctx.oracle_fail("C13:" + k, WHAT[k],
                                 {"mode": "tree", "case": c, "enumeration_order": m.get("order"),
                                  "implementation": a, "declared_relation": s})
+    # hierarchy requests issued from a USE of a method: the prepared item is the nearest declaration up the forest
+    # (in ITS file), and its super-/subtypes are those of that declaration
+    for c, m, a, us in zip(cases, metas, answers, uses):
+        if not us or "harness-stuck" in a:
+            continue
+        for sig, what in use_site_failures(c, a, us):
+            ctx.oracle_fail("C13:" + sig, what, {"mode": "tree", "case": c, "enumeration_order": m.get("order"), "implementation": a, "use_sites": us})
+        ctx.count("cases with use-site requests")
     ctx.dist["distinct (workspace, enumeration order) pairs"] = len(orders)
     ctx.dist["yield-point lock state"] = seen
     ctx.samples = [{"case": cases[i], "harness": impl[i]} for i in (ncorpus, ncorpus + nexh - 1, len(cases) - 1) if 0 <= i < len(cases)]
